@@ -711,6 +711,11 @@ def drv_traverse(tier, seed):
         g = _out(pg.utils.traverse, root, lambda k, v: (seen.append(_tk(k.keys)), _tk(k.keys) != _tk(mp))[1])
         chk(f'utils.traverse.stop/{flavour}', (expr, mp), g == ('ok', False) and seen == [_tk(p) for p, _, _ in upre[:idx + 1]],
             lambda: f'{g} {seen}', lambda: w0 + f'log = []\nret = pg.utils.traverse(root, lambda k, v: (log.append(k.keys), k.keys != {list(mp)!r})[1])\nassert ret is False and len(log) == {idx + 1}')
+      for idx, (mp, _) in enumerate(upost):
+        seen = []
+        g = _out(pg.utils.traverse, root, None, lambda k, v: (seen.append(_tk(k.keys)), _tk(k.keys) != _tk(mp))[1])
+        chk(f'utils.traverse.stop-in-postorder/{flavour}', (expr, mp), g == ('ok', False) and seen == [_tk(p) for p, _ in upost[:idx + 1]],
+            lambda: f'{g} {seen}', lambda: w0 + f'log = []\nret = pg.utils.traverse(root, None, lambda k, v: (log.append(k.keys), k.keys != {list(mp)!r})[1])\nassert ret is False and len(log) == {idx + 1}')
     # --- rebind by function addresses every leaf through its printed path.
     if isinstance(root, pg.Symbolic):
       ints = [p for p, v, _ in mpre if type(v) is int]
